@@ -112,6 +112,19 @@ Theorem C04_parse_dnf : forall e m, dnf KChain m = true -> dec_ok e m ->
 Proof. exact parse_dnf. Qed.
 Print Assumptions C04_parse_dnf.
 
+(* decode_canonical, the part that is TRUE on this tree: on the image of the encoder the decoder is
+   canonical (whatever it returns on encode m' re-encodes to exactly those bytes).  For arbitrary byte
+   strings the statement is false (next theorem); the variant "canonical up to the NUMEQUAL VERIFY
+   split" for arbitrary accepted byte strings is not proved (it needs the unparse invariant of the
+   stack machine) and is checked per run by the oracle. *)
+Theorem C04_decode_canonical_partial : forall e m' t,
+  ksort_ok (d_ke e) -> ms_wf (d_ctx e) (d_ke e) m' ->
+  type_of m' = ROk t -> c_base (t_corr t) <> BW ->
+  lim_ok e (nf (d_ke e) m') -> gv (d_ctx e) (d_ke e) (nf (d_ke e) m') = None ->
+  forall m, decode_max e (encode (d_ke e) m') = OOk m -> encode (d_ke e) m = encode (d_ke e) m'.
+Proof. exact decode_canonical_on_encodings. Qed.
+Print Assumptions C04_decode_canonical_partial.
+
 (* decode_canonical — FULL statement, FALSE on the present tree:
      forall e b m, decode_max e b = OOk m -> encode (d_ke e) m = b.
    Refuted by the model (witness: and_v(v:multi_a(1,A,B),pk(A)) with 9d replaced by 9c 69);
